@@ -44,8 +44,19 @@ ELogger(m, e) ==
   \* C17: creating/looking up by name is idempotent: an existing valid logger is returned unchanged
   LET m1 == Check(m, "ok17", e.fresh = fresh, "create_or_get_logger: fresh/existing mismatch") IN
   IF fresh
-  THEN [m1 EXCEPT !.lg = Upd(m.lg, e.lg, [sinks |-> e.sinks, lvl |-> e.lvl, valid |-> TRUE, present |-> TRUE, sys |-> e.sys])]
+  THEN [m1 EXCEPT !.lg = Upd(m.lg, e.lg, [sinks |-> e.sinks, lvl |-> e.lvl, valid |-> TRUE, present |-> TRUE, sys |-> e.sys, ptr |-> 0])]
   ELSE m1
+
+\* create_or_get_logger / get_logger called from any thread (C17: idempotent and safe): one name, one logger object
+ECreated(m, e) ==
+  IF Has(m.lg, e.lg) /\ m.lg[e.lg].present
+  THEN Check(m, "ok17", ~m.lg[e.lg].valid \/ m.lg[e.lg].ptr = 0 \/ m.lg[e.lg].ptr = e.ptr,
+             "create_or_get_logger returned a different logger object for an existing name")
+  ELSE [m EXCEPT !.lg = Upd(m.lg, e.lg, [sinks |-> e.sinks, lvl |-> 0, valid |-> TRUE, present |-> TRUE, sys |-> TRUE, ptr |-> e.ptr])]
+EGot(m, e) ==
+  IF Has(m.lg, e.lg) /\ m.lg[e.lg].present /\ m.lg[e.lg].valid /\ m.lg[e.lg].ptr # 0
+  THEN Check(m, "ok17", e.ptr = m.lg[e.lg].ptr, "get_logger did not return the logger registered under that name")
+  ELSE m
 
 \* ------------------------------------------------------------------ log call
 ELogCall(m, e) ==
@@ -237,6 +248,8 @@ EBackendDead(m, e) ==
 MStep(m, e) ==
   CASE e.k = "sink" -> ESink(m, e)
     [] e.k = "logger" -> ELogger(m, e)
+    [] e.k = "created" -> ECreated(m, e)
+    [] e.k = "got" -> EGot(m, e)
     [] e.k = "logcall" -> ELogCall(m, e)
     [] e.k = "ts" -> ETs(m, e)
     [] e.k = "commit" -> ECommit(m, e)
